@@ -189,6 +189,14 @@ func checkC12(p *Prog, r *Report) {
 				clears = false
 			}
 		}
+		// alternative: Store clears the whole staging directory once, before storeFiles
+		clearedUpFront := false
+		eachInstr(a.store, false, func(_ *ssa.Function, i ssa.Instruction) {
+			c, ok := i.(*ssa.Call)
+			if ok && isCallTo(c, "fs.RemoveAll", "os.RemoveAll") && derivesFromValue(c.Call.Args[0], tmp) && !derivesFromValue(c.Call.Args[0], final) && instrDominates(c, sfCall) {
+				clearedUpFront = true
+			}
+		})
 		nL := 0
 		eachInstr(a.storeFile, false, func(_ *ssa.Function, i ssa.Instruction) {
 			c, ok := i.(*ssa.Call)
@@ -197,7 +205,7 @@ func checkC12(p *Prog, r *Report) {
 			}
 			nL++
 			dst := c.Call.Args[1]
-			prepared := false
+			prepared := clearedUpFront
 			eachInstr(a.storeFile, false, func(_ *ssa.Function, j ssa.Instruction) {
 				cj, ok := j.(*ssa.Call)
 				if !ok || !instrDominates(cj, c) {
